@@ -10,7 +10,7 @@ from __future__ import annotations
 import asyncio
 
 from . import env
-from .engine import Violation  # noqa: F401
+from .engine import HarnessError, Violation  # noqa: F401
 
 import redress  # noqa: E402  (path set up by rv.engine)
 from redress import (  # noqa: E402
@@ -540,7 +540,11 @@ class World:
 
     # ---- running one entry point ----------------------------------------------------------
     def build(self, entry, *, breaker=None):
-        """Construct the real policy object for ``entry`` (must run inside self.env())."""
+        """Construct the real policy object for ``entry`` (must run inside self.env()).
+
+        entry = <component>.<method>; components: retry, aretry (Retry/AsyncRetry), policy, apolicy
+        (Policy/AsyncPolicy with that retry and ``breaker``), rp, arp (RetryPolicy/AsyncRetryPolicy sugar),
+        deco, adeco (the @retry decorator); methods: call, execute, context (context manager sugar)."""
         comp, meth = entry.split(".")
         self.entry = entry
         self.is_async = comp.startswith("a")
@@ -558,6 +562,20 @@ class World:
             target = RetryPolicy(**rk)
         elif comp == "arp":
             target = AsyncRetryPolicy(**rk)
+        elif comp in ("deco", "adeco"):
+            ck = self.call_kwargs()
+            kw = dict(rk)
+            for k in ("sleep", "sleeper", "before_sleep", "on_metric", "on_log", "operation", "abort_if",
+                      "on_attempt_start", "on_attempt_end"):
+                if k in ck:
+                    kw[k] = ck[k]
+            if self.is_async:
+                async def fn():
+                    return await self.aop()
+            else:
+                def fn():
+                    return self.op()
+            target = redress.retry(**kw)(fn)
         else:
             raise AssertionError(entry)
         self.target = target
@@ -566,22 +584,32 @@ class World:
     def invoke(self, *, inject=None, capture_timeline=False, extra_kwargs=None):
         """One call of the entry point on the already built object; resets per-call counters but
         keeps the outcome script, so a second invocation sees the same operation behaviour."""
-        meth = self.entry.split(".")[1]
+        comp, meth = self.entry.split(".")
         self.n = 0
         ck = self.call_kwargs()
         if meth == "execute" and capture_timeline:
             ck["capture_timeline"] = True
         if extra_kwargs:
             ck.update(extra_kwargs)
-        fn = getattr(self.target, meth)
         self.t(("begin", self.entry, self.now))
         try:
-            if self.is_async:
-                r = env.drive(fn(self.aop, **ck), inject=inject)
+            if comp in ("deco", "adeco"):
+                r = env.drive(self.target(), inject=inject) if self.is_async else self.target()
+            elif meth == "context":
+                if self.is_async:
+                    async def use():
+                        async with self.target.context(**ck) as call:
+                            return await call(self.aop)
+                    r = env.drive(use(), inject=inject)
+                else:
+                    with self.target.context(**ck) as call:
+                        r = call(self.op)
+            elif self.is_async:
+                r = env.drive(getattr(self.target, meth)(self.aop, **ck), inject=inject)
             else:
-                r = fn(self.op, **ck)
+                r = getattr(self.target, meth)(self.op, **ck)
         except BaseException as e:
-            if type(e).__module__.startswith("crosshair") or isinstance(e, Violation):
+            if type(e).__module__.startswith("crosshair") or isinstance(e, (Violation, HarnessError)):
                 raise
             self.result = ("raise", e)
         else:
